@@ -1,6 +1,6 @@
 use crate::{
     protocols::types::TimeoutSettings,
-    GDErrorKind::{PacketReceive, PacketSend, SocketBind, SocketConnect},
+    GDErrorKind::{InvalidInput, PacketReceive, PacketSend, SocketBind, SocketConnect},
     GDResult,
 };
 
@@ -99,8 +99,14 @@ impl Socket for TcpSocketImpl {
 
     fn apply_timeout(&self, timeout_settings: &Option<TimeoutSettings>) -> GDResult<()> {
         let (read, write) = TimeoutSettings::get_read_and_write_or_defaults(timeout_settings);
-        self.socket.set_read_timeout(read).unwrap(); // unwrapping because TimeoutSettings::new
-        self.socket.set_write_timeout(write).unwrap(); // checks if these are 0 and throws an error
+        // TimeoutSettings::new rejects zero durations, but settings can also be built by
+        // deserialization or command line flags: report what the OS refuses, don't panic.
+        self.socket
+            .set_read_timeout(read)
+            .map_err(|e| InvalidInput.context(e))?;
+        self.socket
+            .set_write_timeout(write)
+            .map_err(|e| InvalidInput.context(e))?;
 
         Ok(())
     }
@@ -157,8 +163,14 @@ impl Socket for UdpSocketImpl {
 
     fn apply_timeout(&self, timeout_settings: &Option<TimeoutSettings>) -> GDResult<()> {
         let (read, write) = TimeoutSettings::get_read_and_write_or_defaults(timeout_settings);
-        self.socket.set_read_timeout(read).unwrap(); // unwrapping because TimeoutSettings::new
-        self.socket.set_write_timeout(write).unwrap(); // checks if these are 0 and throws an error
+        // TimeoutSettings::new rejects zero durations, but settings can also be built by
+        // deserialization or command line flags: report what the OS refuses, don't panic.
+        self.socket
+            .set_read_timeout(read)
+            .map_err(|e| InvalidInput.context(e))?;
+        self.socket
+            .set_write_timeout(write)
+            .map_err(|e| InvalidInput.context(e))?;
 
         Ok(())
     }
